@@ -228,6 +228,15 @@ func refDecode(file []byte) (*refImage, error) {
 			if pay[1+2*ns] != 0 || pay[2+2*ns] != 63 || pay[3+2*ns] != 0 {
 				return nil, errors.New("not a baseline scan")
 			}
+			if ns > 1 { // B.2.3: the sum of Hj*Vj over the scan's components is at most 10
+				sum := 0
+				for _, c := range img.comps {
+					sum += c.h * c.v
+				}
+				if sum > 10 {
+					return nil, errors.New("more than 10 data units per MCU")
+				}
+			}
 			// entropy-coded segment: up to the next marker, unstuffed
 			var ecs []byte
 			for {
